@@ -1,11 +1,568 @@
-//! C04 — placeholder while probing (replaced below)
+//! C04 — write statements have exactly their openCypher effect.
+//!
+//! Random small graphs x random sequences of generated write statements run through the real
+//! engine (`parse_query` + `MutQueryExecutor`).  After every statement the returned rows and a
+//! full dump (nodes, label sets, typed properties, relationships) are compared with the Lean
+//! reference semantics `SgModel.CyW.exec` started from the engine's own pre-statement dump:
+//!   R  = engine rows + post dump,
+//!   M  = `run`  (model rows + post graph),
+//!   S  = `spec` (`specStmt` evaluated on R with the handle renaming found here as certificate).
+//! Whether a *failed* statement leaves something behind is C05's subject, not compared here.
 #[path = "cyw/mod.rs"]
 mod cyw;
-use vharness::Args;
+use cyw::*;
+use samyama::graph::{GraphStore, PropertyValue};
+use serde_json::json;
+use std::collections::HashMap;
+use vharness::{driver, Args, Known, Report, Rng};
+
+const NL: u32 = 3; // labels L0..L2
+const NT: u32 = 2; // relationship types T0..T1
+const NK: u32 = 3; // property keys k0..k2
+
+fn small_lit(rng: &mut Rng) -> Ex {
+    match rng.below(10) {
+        0 => Ex::Lit(PropertyValue::String("a".into())),
+        1 => Ex::Lit(PropertyValue::String("b'c".into())),
+        2 => Ex::Lit(PropertyValue::Boolean(rng.chance(1, 2))),
+        _ => int(rng.range(0, 3)),
+    }
+}
+
+fn lit_props(rng: &mut Rng, max: u64) -> Vec<(u32, Ex)> {
+    let mut ps = vec![];
+    for k in 0..NK {
+        if ps.len() as u64 >= max {
+            break;
+        }
+        if rng.chance(1, 2) {
+            ps.push((k, small_lit(rng)));
+        }
+    }
+    ps
+}
+
+fn labels(rng: &mut Rng) -> Vec<u32> {
+    let a = rng.below(NL as u64) as u32;
+    if rng.chance(1, 5) {
+        let b = (a + 1) % NL;
+        vec![a, b]
+    } else {
+        vec![a]
+    }
+}
+
+/// an integer-valued expression over the row variable `v0` (bound by UNWIND to small ints)
+fn row_expr(rng: &mut Rng) -> Ex {
+    match rng.below(5) {
+        0 => Ex::Var(0),
+        1 => bin("add", Ex::Var(0), int(rng.range(0, 2))),
+        2 => bin("mul", Ex::Var(0), int(rng.range(0, 2))),
+        3 => bin("mod", Ex::Var(0), int(2)),
+        _ => Ex::Ite(Box::new(bin("gt", Ex::Var(0), int(1))), Box::new(int(7)), Box::new(Ex::Var(0))),
+    }
+}
+
+/// an expression over the properties of the node/relationship bound to `x`
+fn own_expr(rng: &mut Rng, x: u32) -> Ex {
+    let k = rng.below(NK as u64) as u32;
+    match rng.below(6) {
+        0 => Ex::Prop(x, k),
+        1 => bin("add", Ex::Prop(x, 0), int(rng.range(0, 2))),
+        2 => small_lit(rng),
+        3 => Ex::Lit(PropertyValue::Null),
+        4 => Ex::Ite(Box::new(Ex::Un("isnull", Box::new(Ex::Prop(x, k)))), Box::new(int(9)), Box::new(Ex::Prop(x, k))),
+        _ => Ex::List(vec![int(rng.range(0, 2)), int(1)]),
+    }
+}
+
+fn lit_map(rng: &mut Rng) -> Ex {
+    let mut m = HashMap::new();
+    for k in 0..NK {
+        if rng.chance(1, 2) {
+            let v = match rng.below(5) {
+                0 => PropertyValue::Null,
+                1 => PropertyValue::String("m".into()),
+                _ => PropertyValue::Integer(rng.range(0, 3)),
+            };
+            m.insert(format!("k{}", k), v);
+        }
+    }
+    Ex::Lit(PropertyValue::Map(m))
+}
+
+fn unwind_list(rng: &mut Rng) -> Ex {
+    let n = rng.range(0, 4);
+    Ex::List((0..n).map(|_| int(rng.range(0, 3))).collect())
+}
+
+fn set_items_on(rng: &mut Rng, x: u32, node: bool) -> Vec<SetItem> {
+    match rng.below(if node { 6 } else { 4 }) {
+        0 | 1 => {
+            let n = rng.range(1, 2);
+            let mut ks: Vec<u32> = (0..NK).collect();
+            let mut items = vec![];
+            for _ in 0..n {
+                let k = ks.remove(rng.usize(ks.len()));
+                items.push(SetItem::Prop(x, k, own_expr(rng, x)));
+            }
+            items
+        }
+        2 => vec![SetItem::All(x, lit_map(rng))],
+        3 => vec![SetItem::MAdd(x, lit_map(rng))],
+        4 => vec![SetItem::Label(x, rng.below(NL as u64) as u32)],
+        _ => vec![SetItem::Prop(x, rng.below(NK as u64) as u32, own_expr(rng, x)), SetItem::Label(x, rng.below(NL as u64) as u32)],
+    }
+}
+
+fn match_node(rng: &mut Rng, x: u32) -> Vec<Cl> {
+    let l = vec![rng.below(NL as u64) as u32];
+    match rng.below(4) {
+        0 => vec![Cl::MatchN(x, l, vec![(rng.below(NK as u64) as u32, int(rng.range(0, 3)))])],
+        1 => vec![Cl::MatchN(x, l, vec![]), Cl::Filter(bin(*rng.pick(&["eq", "gt", "le"]), Ex::Prop(x, rng.below(NK as u64) as u32), int(rng.range(0, 2))))],
+        _ => vec![Cl::MatchN(x, l, vec![])],
+    }
+}
+
+/// One statement of the supported fragment.  Shapes are restricted to those whose result
+/// does not depend on the order in which MATCH produces its rows (see the module docs of
+/// `SgModel/Model/CyW.lean`), because the engine scans a hash set.
+fn gen_stmt(rng: &mut Rng) -> St {
+    let new_node = |rng: &mut Rng, var: Option<u32>, props: Vec<(u32, Ex)>| NPat { var, labels: if rng.chance(1, 8) { vec![] } else { labels(rng) }, props };
+    match rng.below(20) {
+        // ---- row-less CREATE
+        0 | 1 => {
+            let a = { let lp = lit_props(rng, 3); new_node(rng, Some(1), lp) };
+            let mut cls = vec![];
+            if rng.chance(1, 2) {
+                let b = { let lp = lit_props(rng, 2); new_node(rng, Some(2), lp) };
+                cls.push(Cl::Create(vec![CPath { a, seg: Some((rng.below(NT as u64) as u32, lit_props(rng, 1), rng.chance(1, 2), b)) }]));
+            } else if rng.chance(1, 3) {
+                let b = { let lp = lit_props(rng, 2); new_node(rng, Some(2), lp) };
+                cls.push(Cl::Create(vec![CPath { a, seg: None }, CPath { a: b, seg: None }]));
+            } else {
+                cls.push(Cl::Create(vec![CPath { a, seg: None }]));
+            }
+            if rng.chance(1, 4) {
+                cls.push(Cl::Set(vec![SetItem::Prop(1, 2, small_lit(rng))]));
+            }
+            let ret = if rng.chance(1, 3) { Some(vec![Ex::Prop(1, 0), Ex::Prop(1, 2)]) } else { None };
+            St { cls, ret }
+        }
+        // ---- UNWIND ... CREATE
+        2 | 3 | 4 => {
+            let mut cls = vec![Cl::Unwind(unwind_list(rng), 0)];
+            if rng.chance(1, 5) {
+                cls.push(Cl::With(vec![], vec![(0, bin("add", Ex::Var(0), int(1)))]));
+            }
+            let mut props = lit_props(rng, 1);
+            props.retain(|(k, _)| *k != 0);
+            props.push((0, row_expr(rng)));
+            let a = new_node(rng, Some(1), props);
+            if rng.chance(1, 3) {
+                let b = { let lp = lit_props(rng, 1); new_node(rng, Some(2), lp) };
+                let rp = if rng.chance(1, 2) { vec![(1, row_expr(rng))] } else { vec![] };
+                cls.push(Cl::Create(vec![CPath { a, seg: Some((rng.below(NT as u64) as u32, rp, rng.chance(1, 2), b)) }]));
+            } else {
+                cls.push(Cl::Create(vec![CPath { a, seg: None }]));
+            }
+            if rng.chance(1, 4) {
+                cls.push(Cl::Set(vec![SetItem::Prop(1, 2, row_expr(rng))]));
+            }
+            let ret = if rng.chance(1, 3) { Some(vec![Ex::Var(0), Ex::Prop(1, 0)]) } else { None };
+            St { cls, ret }
+        }
+        // ---- MERGE (row-less / UNWIND / MATCH sourced)
+        5 | 6 | 7 | 8 => {
+            let src = rng.below(3);
+            let mut cls = vec![];
+            let key = rng.below(2) as u32;
+            let val = match src {
+                0 => int(rng.range(0, 2)),
+                1 => {
+                    cls.push(Cl::Unwind(unwind_list(rng), 0));
+                    row_expr(rng)
+                }
+                _ => {
+                    cls.extend(match_node(rng, 3));
+                    let nn = Ex::Un("notnull", Box::new(Ex::Prop(3, 0)));
+                    // one WHERE per MATCH: conjoin with the filter `match_node` may have added
+                    match cls.pop() {
+                        Some(Cl::Filter(e)) => cls.push(Cl::Filter(bin("and", e, nn))),
+                        Some(other) => {
+                            cls.push(other);
+                            cls.push(Cl::Filter(nn));
+                        }
+                        None => {}
+                    }
+                    Ex::Prop(3, 0)
+                }
+            };
+            let has_oc = rng.chance(1, 2);
+            let has_om = rng.chance(1, 2);
+            let plain = !has_oc && !has_om;
+            // ON MATCH / RETURN must never observe a pattern with several matches: S binds the
+            // first one, openCypher all of them, the engine an arbitrary one.  Such statements
+            // therefore use the dedicated label L3 with exactly {k0: value}: L3 nodes are only
+            // ever made by these MERGEs, so each value has at most one match.
+            let p = if plain {
+                let mut props = vec![(key, val)];
+                if rng.chance(1, 4) {
+                    props.push((2, int(rng.range(0, 1))));
+                }
+                NPat { var: Some(1), labels: labels(rng), props }
+            } else {
+                NPat { var: Some(1), labels: vec![3], props: vec![(0, val)] }
+            };
+            let key = if plain { key } else { 0 };
+            let const_item = |rng: &mut Rng, k: u32| SetItem::Prop(1, k, int(rng.range(4, 6)));
+            let oc = if has_oc { vec![if src == 1 && rng.chance(1, 2) { SetItem::Prop(1, 2, row_expr(rng)) } else { const_item(rng, 2) }] } else { vec![] };
+            let om = if has_om { vec![if src == 1 && rng.chance(1, 2) { SetItem::Prop(1, 1, row_expr(rng)) } else { const_item(rng, 1) }] } else { vec![] };
+            cls.push(Cl::Merge(p, oc, om));
+            let ret = if rng.chance(1, 3) { Some(if src == 1 { vec![Ex::Var(0)] } else if plain { vec![Ex::Prop(1, key)] } else { vec![int(1)] }) } else { None };
+            St { cls, ret }
+        }
+        // ---- MATCH node ... SET / REMOVE / label
+        9 | 10 | 11 | 12 => {
+            let mut cls = match_node(rng, 1);
+            if rng.chance(1, 6) {
+                cls.push(Cl::With(vec![1], vec![(4, bin("add", Ex::Prop(1, 0), int(1)))]));
+                cls.push(Cl::Set(vec![SetItem::Prop(1, 2, Ex::Var(4))]));
+                return St { cls, ret: if rng.chance(1, 2) { Some(vec![Ex::Var(4)]) } else { None } };
+            }
+            match rng.below(4) {
+                0 => cls.push(Cl::Remove(vec![RemItem::Prop(1, rng.below(NK as u64) as u32)])),
+                1 => cls.push(Cl::Remove(vec![RemItem::Label(1, rng.below(NL as u64) as u32), RemItem::Prop(1, rng.below(NK as u64) as u32)])),
+                _ => cls.push(Cl::Set(set_items_on(rng, 1, true))),
+            }
+            if rng.chance(1, 6) {
+                cls.push(Cl::Remove(vec![RemItem::Prop(1, rng.below(NK as u64) as u32)]));
+            }
+            let ret = if rng.chance(1, 3) { Some(vec![Ex::Prop(1, 0), Ex::Prop(1, 1), Ex::Prop(1, 2)]) } else { None };
+            St { cls, ret }
+        }
+        // ---- MATCH node ... DELETE / DETACH DELETE
+        13 | 14 => {
+            let mut cls = match_node(rng, 1);
+            cls.push(Cl::Delete(rng.chance(1, 2), vec![1]));
+            St { cls, ret: if rng.chance(1, 4) { Some(vec![int(1)]) } else { None } }
+        }
+        // ---- MATCH node ... CREATE from the row
+        15 | 16 => {
+            let mut cls = match_node(rng, 1);
+            if rng.chance(1, 4) {
+                cls.push(Cl::Unwind(unwind_list(rng), 0));
+            }
+            let b = NPat { var: Some(2), labels: labels(rng), props: vec![(0, Ex::Prop(1, 0))] };
+            if rng.chance(1, 2) {
+                cls.push(Cl::Create(vec![CPath { a: NPat { var: Some(1), labels: vec![], props: vec![] }, seg: Some((rng.below(NT as u64) as u32, if rng.chance(1, 2) { vec![(0, Ex::Prop(1, 1))] } else { vec![] }, rng.chance(1, 2), b)) }]));
+            } else {
+                cls.push(Cl::Create(vec![CPath { a: b, seg: None }]));
+            }
+            St { cls, ret: if rng.chance(1, 4) { Some(vec![Ex::Prop(1, 0), Ex::Prop(2, 0)]) } else { None } }
+        }
+        // ---- MATCH relationship ...
+        17 | 18 => {
+            let mut cls = vec![Cl::MatchR(1, vec![rng.below(NL as u64) as u32], 2, rng.below(NT as u64) as u32, 3, if rng.chance(1, 2) { vec![] } else { vec![rng.below(NL as u64) as u32] })];
+            match rng.below(7) {
+                0 => cls.push(Cl::Set(vec![SetItem::Prop(2, rng.below(NK as u64) as u32, bin("add", Ex::Prop(1, 0), Ex::Prop(3, 0)))])),
+                1 => cls.push(Cl::Set(set_items_on(rng, 2, false))),
+                2 => cls.push(Cl::Remove(vec![RemItem::Prop(2, rng.below(NK as u64) as u32)])),
+                3 => cls.push(Cl::Delete(false, vec![2])),
+                4 => cls.push(Cl::Delete(false, if rng.chance(1, 2) { vec![2, 1] } else { vec![1, 2] })),
+                5 => cls.push(Cl::Delete(true, vec![if rng.chance(1, 2) { 1 } else { 3 }])),
+                _ => cls.push(Cl::Set(vec![SetItem::Prop(3, 2, int(rng.range(0, 2)))])),
+            }
+            St { cls, ret: if rng.chance(1, 4) { Some(vec![int(2)]) } else { None } }
+        }
+        // ---- read-only statement (the graph must not change)
+        _ => {
+            let mut cls = match_node(rng, 1);
+            if rng.chance(1, 3) {
+                cls.push(Cl::Unwind(unwind_list(rng), 0));
+                return St { cls, ret: Some(vec![Ex::Prop(1, 0), Ex::Var(0)]) };
+            }
+            St { cls, ret: Some(vec![Ex::Prop(1, 0), bin("add", Ex::Prop(1, 0), int(1))]) }
+        }
+    }
+}
+
+/// statements that exhibit defects of the engine which are recorded as known findings
+fn gen_known(rng: &mut Rng) -> St {
+    match rng.below(4) {
+        0 => St {
+            cls: vec![Cl::MatchN(1, vec![rng.below(NL as u64) as u32], vec![]), Cl::Set(vec![SetItem::Prop(1, 1, int(5))]), Cl::Set(vec![SetItem::Prop(1, 2, bin("add", Ex::Prop(1, 1), int(1)))])],
+            ret: None,
+        },
+        1 => St {
+            cls: vec![Cl::Unwind(Ex::List(vec![int(1), int(2)]), 0), Cl::Merge(NPat { var: Some(1), labels: vec![rng.below(NL as u64) as u32], props: vec![(0, Ex::Var(0))] }, vec![], vec![]), Cl::Set(vec![SetItem::Prop(1, 2, bin("add", Ex::Var(0), int(5)))])],
+            ret: None,
+        },
+        2 => St {
+            cls: vec![Cl::Create(vec![CPath { a: NPat { var: Some(1), labels: vec![0], props: vec![] }, seg: Some((0, vec![(0, bin("add", int(1), int(1)))], true, NPat { var: Some(2), labels: vec![1], props: vec![] })) }])],
+            ret: None,
+        },
+        _ => St { cls: vec![Cl::Merge(NPat { var: Some(1), labels: vec![], props: vec![(0, int(rng.range(0, 1)))] }, vec![], vec![])], ret: None },
+    }
+}
+
+/// structural class of a statement on which S and the engine disagree
+fn signature(st: &St) -> String {
+    let n_set = st.cls.iter().filter(|c| matches!(c, Cl::Set(_))).count();
+    let has_source = st.cls.iter().any(|c| matches!(c, Cl::Unwind(..) | Cl::MatchN(..) | Cl::MatchR(..)));
+    let merge_at = st.cls.iter().position(|c| matches!(c, Cl::Merge(..)));
+    if n_set >= 2 {
+        return "set-after-set-reads-stale".into();
+    }
+    if let Some(i) = merge_at {
+        if has_source && matches!(st.cls.get(i + 1), Some(Cl::Set(_))) {
+            return "merge-with-input-then-set-dropped".into();
+        }
+        if let Cl::Merge(p, ..) = &st.cls[i] {
+            if p.labels.is_empty() {
+                return "merge-unlabelled-never-matches".into();
+            }
+        }
+    }
+    if !has_source {
+        if let Some(Cl::Create(paths)) = st.cls.first() {
+            if paths.iter().any(|p| p.seg.as_ref().map_or(false, |s| s.1.iter().any(|(_, e)| !e.is_lit()))) {
+                return "create-rel-prop-expr-dropped".into();
+            }
+        }
+    }
+    let del = st.cls.iter().find_map(|c| if let Cl::Delete(d, xs) = c { Some((*d, xs.len())) } else { None });
+    match del {
+        Some((false, _)) => "plain-delete-connected".into(),
+        _ => format!("stmt:{}", st.kinds()),
+    }
+}
+
+struct Case {
+    pre: String,
+    st: St,
+    text: String,
+    /// engine: Ok(sorted rows text) | Err(kind)
+    out: Result<String, String>,
+    post: String,
+    seq_texts: Vec<String>,
+}
+
+fn run_sequence(stmts: &[St], cases: &mut Vec<Case>) {
+    let mut store = GraphStore::new();
+    let mut texts = vec![];
+    for st in stmts {
+        let pre = dump(&store);
+        let text = st.cypher();
+        texts.push(text.clone());
+        let o = exec(&mut store, &text, None);
+        let post = dump(&store);
+        let out = match &o.rows {
+            Ok(rows) => Ok(rows_text(rows)),
+            Err((k, _)) => Err(k.tag().to_string()),
+        };
+        cases.push(Case { pre, st: st.clone(), text, out, post, seq_texts: texts.clone() });
+    }
+}
+
 fn main() {
     let args = Args::parse();
     if let Some(i) = args.extra.iter().position(|a| a == "--probe") {
         cyw::probe(&args.extra[i + 1]);
         return;
     }
+    let known = Known::load(&args.known, "C04");
+    let mut rep = Report::new(
+        "C04",
+        "sequences of generated write statements (CREATE, MERGE ON CREATE/ON MATCH, SET prop/=/+=/label, REMOVE, DELETE, DETACH DELETE \
+         under unit / UNWIND / MATCH node / MATCH relationship / WITH sources) on an evolving store; per statement the engine's rows and \
+         full dump vs the Lean reference semantics started from the engine's own pre-dump; non-trivial = the statement changed the graph; \
+         distinct = distinct (pre-dump, statement)",
+        &args.replays,
+        args.seed,
+    );
+    let exe = args.driver_exe("drv_cyw");
+    let mut cases: Vec<Case> = vec![];
+
+    // 1. corpus / replay: one sequence per file, one Cypher statement per line, given as
+    //    `stmt <model term>` lines (the Cypher text is re-rendered from the term by the
+    //    generator's AST only for generated cases; corpus lines carry both)
+    let mut files: Vec<std::path::PathBuf> = vec![];
+    if let Some(r) = &args.replay {
+        files.push(r.clone());
+    } else if let Ok(rd) = std::fs::read_dir(args.corpus.join("C04")) {
+        files = rd.filter_map(|e| e.ok().map(|e| e.path())).collect();
+        files.sort();
+    }
+    let mut corpus_cases: Vec<(String, String, String, Result<String, String>, String, Vec<String>)> = vec![];
+    for f in &files {
+        let mut store = GraphStore::new();
+        let mut texts = vec![];
+        for line in std::fs::read_to_string(f).unwrap_or_default().lines() {
+            let line = line.trim();
+            if line.is_empty() || line.starts_with('#') {
+                continue;
+            }
+            if line == "!reset" {
+                store = GraphStore::new();
+                texts.clear();
+                continue;
+            }
+            // `<model term> ||| <cypher text>`
+            let Some((term, text)) = line.split_once(" ||| ") else { continue };
+            let pre = dump(&store);
+            texts.push(text.to_string());
+            let o = exec(&mut store, text, None);
+            let post = dump(&store);
+            let out = match &o.rows {
+                Ok(rows) => Ok(rows_text(rows)),
+                Err((k, _)) => Err(k.tag().to_string()),
+            };
+            corpus_cases.push((pre, term.trim().to_string(), text.to_string(), out, post, texts.clone()));
+        }
+    }
+    rep.count_n("corpus_statements", corpus_cases.len() as u64);
+
+    // 2. generated sequences
+    if args.replay.is_none() {
+        let mut rng = Rng::new(vharness::util::fnv(&format!("c04-{}", args.seed)));
+        let n_seq = if args.thorough() { 6000 } else { 700 };
+        for _ in 0..n_seq {
+            let len = 4 + rng.usize(7);
+            let mut stmts = vec![];
+            for _ in 0..len {
+                stmts.push(if rng.chance(1, 40) { gen_known(&mut rng) } else { gen_stmt(&mut rng) });
+            }
+            run_sequence(&stmts, &mut cases);
+        }
+    }
+
+    // unify
+    struct Flat {
+        pre: String,
+        term: String,
+        text: String,
+        out: Result<String, String>,
+        post: String,
+        seq: Vec<String>,
+        sig: String,
+        kinds: String,
+    }
+    let mut flat: Vec<Flat> = corpus_cases
+        .into_iter()
+        .map(|(pre, term, text, out, post, seq)| Flat { pre, sig: String::new(), kinds: "corpus".into(), term, text, out, post, seq })
+        .collect();
+    // corpus signatures: from the comment-free term shape is not available; classify by text
+    for f in flat.iter_mut() {
+        let t = &f.text;
+        f.sig = if t.matches(" SET ").count() >= 2 {
+            "set-after-set-reads-stale".into()
+        } else if t.contains("MERGE") && t.contains(" SET ") && !t.contains("ON ") && (t.starts_with("UNWIND") || t.starts_with("MATCH")) {
+            "merge-with-input-then-set-dropped".into()
+        } else if t.starts_with("MERGE (v1 {") {
+            "merge-unlabelled-never-matches".into()
+        } else if t.starts_with("CREATE") && t.contains("-[:") && t.contains(" + ") {
+            "create-rel-prop-expr-dropped".into()
+        } else if t.contains(" DELETE ") && !t.contains("DETACH") {
+            "plain-delete-connected".into()
+        } else {
+            "corpus".into()
+        };
+    }
+    for c in cases {
+        flat.push(Flat { sig: signature(&c.st), kinds: c.st.kinds(), pre: c.pre, term: c.st.model(), text: c.text, out: c.out, post: c.post, seq: c.seq_texts });
+    }
+
+    // phase 1: model
+    let lines: Vec<String> = flat.iter().map(|f| format!("run - {} {}", f.pre, f.term)).collect();
+    let replies = driver::par_batch(&exe, &lines, 12);
+    // phase 2: renaming certificate + spec on the engine's observations
+    let mut spec_lines = vec![];
+    let mut rens = vec![];
+    for (f, m) in flat.iter().zip(replies.iter()) {
+        let (mok, _mrows, mgraph) = split_reply(m);
+        let ren = if mok && f.out.is_ok() {
+            match (parse_dump(&f.post), parse_dump(&mgraph)) {
+                (Some(a), Some(b)) => find_renaming(&a, &b),
+                _ => None,
+            }
+        } else {
+            None
+        };
+        let obs = match &f.out {
+            Ok(rows) => format!("ok@{}@{}", rows, f.post),
+            // leftovers of a failed statement are C05's subject: the observation says "unchanged"
+            Err(k) => format!("err@{}@{}", k, f.pre),
+        };
+        spec_lines.push(format!("spec - {} {} {} {}", f.pre, f.term, obs, ren_text(ren.as_deref().unwrap_or(&[]))));
+        rens.push(ren);
+    }
+    let verdicts = driver::par_batch(&exe, &spec_lines, 12);
+
+    let mut first_break: Option<String> = None;
+    for (i, f) in flat.iter().enumerate() {
+        let m = &replies[i];
+        let s = &verdicts[i];
+        let changed = f.post != f.pre;
+        rep.case(&format!("{} {}", f.pre, f.term), changed);
+        rep.count(&format!("shape:{}", f.kinds));
+        match &f.out {
+            Ok(_) => rep.count("engine:ok"),
+            Err(k) => rep.count(&format!("engine:err:{}", k)),
+        }
+        if changed && rep.samples.len() < 4 {
+            rep.sample(json!({"statement": f.text, "pre": f.pre, "post": f.post, "rows": f.out.clone().unwrap_or_default()}));
+        }
+        let body = format!(
+            "# sequence (from an empty store):\n{}\n# failing statement\nstmt {} ||| {}\npre   {}\nimpl  {:?} {}\nmodel {}\nspec  {}",
+            f.seq.iter().map(|t| format!("#   {}", t)).collect::<Vec<_>>().join("\n"),
+            f.term,
+            f.text,
+            f.pre,
+            f.out,
+            f.post,
+            m,
+            s
+        );
+        if m == "bad-op" || s == "bad-op" {
+            rep.count("driver_rejected");
+            if first_break.is_none() {
+                first_break = Some(body.clone());
+            }
+            continue;
+        }
+        if m == "err unsup" {
+            // outside the modelled expression fragment: not a verdict either way
+            rep.count("model_unsupported");
+            continue;
+        }
+        if s != "ok" {
+            rep.count(&format!("spec_violation:{}", f.sig));
+            rep.spec_violation(&known, &f.sig, &format!("`{}` on {}: engine {:?} / {} but S gives {}", f.text, f.pre, f.out, f.post, m), &body);
+            continue;
+        }
+        // S holds; M must agree with R as well (rows as bags, graph up to the certificate)
+        let (mok, mrows, _) = split_reply(m);
+        let agree = match &f.out {
+            Ok(rows) => mok && sort_rows_text(&mrows) == *rows && rens[i].is_some(),
+            Err(_) => !mok,
+        };
+        if !agree {
+            rep.count("model_mismatch");
+            if first_break.is_none() {
+                first_break = Some(body);
+            }
+        }
+    }
+    if let Some(body) = first_break {
+        if rep.spec_violations.is_empty() {
+            rep.correspondence_break(
+                "SgModel.CyW.exec = parse_query + MutQueryExecutor::execute (rows, full dump)",
+                "model and engine differ (or the driver rejected a request) although the specification holds on all explored cases",
+                &body,
+            );
+        }
+    }
+    rep.extra.insert("grammar_version".into(), json!("cyw-1: unit|UNWIND|MATCH node|MATCH rel|WITH sources; CREATE node/path, MERGE node ON CREATE/ON MATCH, SET prop/=/+=/label, REMOVE prop/label, DELETE, DETACH DELETE; RETURN of scalars"));
+    rep.write(&args.out);
 }
